@@ -426,6 +426,13 @@ func (ms *MidState) createImmatureSiacoinElement(id types.SiacoinOutputID, sco t
 func (ms *MidState) spendSiacoinElement(sce types.SiacoinElement, txid types.TransactionID) {
 	sced := ms.recordSiacoinElement(sce.ID)
 	sced.SiacoinElement = sce.Copy()
+	if sced.Created {
+		// The element was created earlier in this block, so it has no
+		// position in the accumulator yet. Whatever proof the spender
+		// attached to the ephemeral parent is not validated and must not
+		// seed the proof that is computed when the leaf is added.
+		sced.SiacoinElement.StateElement.MerkleProof = nil
+	}
 	sced.Spent = true
 	ms.spends[sce.ID] = txid
 }
@@ -454,6 +461,10 @@ func (ms *MidState) createSiafundElement(id types.SiafundOutputID, sfo types.Sia
 func (ms *MidState) spendSiafundElement(sfe types.SiafundElement, txid types.TransactionID) {
 	sfed := ms.recordSiafundElement(sfe.ID)
 	sfed.SiafundElement = sfe.Copy()
+	if sfed.Created {
+		// see spendSiacoinElement
+		sfed.SiafundElement.StateElement.MerkleProof = nil
+	}
 	sfed.Spent = true
 	ms.spends[sfe.ID] = txid
 }
